@@ -13,14 +13,14 @@ pub fn address_tokens() -> Vec<Vec<u8>> {
         "1.2.3.4", "5.6.7.8", "0.0.0.0", "255.255.255.255", "192.168.100.200", "9.10.99.100",
         // invalid IPv4
         "01.2.3.4", "256.1.1.1", "1.2.3", "1.2.3.4.5", "1.2.3.", "1..3.4", "1.2.3.4x", "-1.2.3.4", "0x1.2.3.4", "1.2.3.0004",
-        "+1.2.3.4", "1.2.3.4\n",
+        "+1.2.3.4", "1.2.3.4\n", "1.2.3.+4", "1.+2.3.4", "1.2.3.-4",
         // valid IPv6
         "::", "::1", "1:2:3:4:5:6:7:8", "ffff:ffff:ffff:ffff:ffff:ffff:ffff:ffff", "1:2:3:4:5:6:7::", "::2:3:4:5:6:7:8",
         "::ffff:1.2.3.4", "1:2:3:4:5:6:1.2.3.4", "FFFF::", "a:B::c", "1::8", "0001::", "::1.2.3.4", "1:2::7:8", "0:0:0:0:0:0:0:0",
-        "a1:b2:c3:d4:e5:f6:7:8",
+        "a1:b2:c3:d4:e5:f6:7:8", "0000:0000:0000:0000:0000:ffff:192.168.100.200", "ffff:ffff:ffff:ffff:ffff:ffff:255.255.255.255",
         // invalid IPv6
         "12345::", "1:2:3:4:5:6:7", "1:2:3:4:5:6:7:8:9", "1::2::3", ":::", "::1%1", "[::1]", "1:2:3:4:5:6:7:8::", "::1:2:3:4:5:6:7:8",
-        "g::", ":1", "1:", "::01.2.3.4", "1.2.3.4::", "::1.2.3", "1:2:3:4:5:6:7:1.2.3.4", "1:2:3:4:5:6:7:8:", ":1:2:3:4:5:6:7:8", "::1\n",
+        "g::", ":1", "1:", "::+1", "+1::", "1:2:3:4:5:6:7:+8", "::-1", "::01.2.3.4", "1.2.3.4::", "::1.2.3", "1:2:3:4:5:6:7:1.2.3.4", "1:2:3:4:5:6:7:8:", ":1:2:3:4:5:6:7:8", "::1\n",
         // neither
         "", "x", "\n", "\0",
     ]
@@ -81,7 +81,7 @@ pub fn trailer_tokens() -> Vec<Vec<u8>> {
 pub fn unknown_text_tokens() -> Vec<Vec<u8>> {
     let mut v: Vec<Vec<u8>> = [
         "", " ", " a", " a b c d", " a b c d e", " a b c d ", "  ", " \n", " \0", " 1.2.3.4 5.6.7.8 1 2", " a b c d e f g h", "X", "\n",
-        " a\tb",
+        " a\tb", " UNKNOWN", " a UNKNOWN b", " TCP4 x", " PROXY", " UNKNOWN\r", "  UNKNOWN UNKNOWN",
     ]
     .iter()
     .map(|s| b(s))
@@ -238,12 +238,51 @@ pub fn len_universe() -> ListUniverse {
             }
         }
     }
+    // the longest valid TCP6 lines: 45-character addresses (embedded dotted quad) give lines of 100..=107 bytes
+    let long6 = ["0000:0000:0000:0000:0000:ffff:192.168.100.200", "ffff:ffff:ffff:ffff:ffff:ffff:255.255.255.255", "ffff:ffff:ffff:ffff:ffff:ffff:ffff:ffff", "1234:5678:9abc:def0:1234:5678:100.100.100.100"];
+    for a in long6 {
+        for bb in long6 {
+            for (sp, dp) in [("65535", "65535"), ("1", "65535"), ("65535", "0"), ("0", "0"), ("10000", "443")] {
+                for t in &terms {
+                    let mut c = b(&format!("PROXY TCP6 {} {} {} {}", a, bb, sp, dp));
+                    c.extend_from_slice(t);
+                    cases.push(c.clone());
+                    c.extend_from_slice(b"GET /");
+                    cases.push(c);
+                }
+            }
+        }
+    }
     // TCP4 lines made long by a long (invalid) last field
     for total in 104usize..=110 {
         let mut c = b("PROXY TCP4 1.2.3.4 5.6.7.8 80 4");
         c.resize(total - 2, b'4');
         c.extend_from_slice(b"\r\n");
         cases.push(c);
+    }
+    // long (garbage) fields: the first CR at every index 40..=106 of a TCP line with one to four fields
+    for proto in ["TCP4", "TCP6"] {
+        for nfields in 1..=4usize {
+            for cr in 40usize..=106 {
+                let mut c = b(&format!("PROXY {} ", proto));
+                let tail: Vec<&str> = ["5.6.7.8", "80", "443"][..nfields - 1].to_vec();
+                let tail_len: usize = tail.iter().map(|t| t.len() + 1).sum();
+                if c.len() + tail_len + 1 > cr {
+                    continue;
+                }
+                let fill = cr - c.len() - tail_len;
+                c.extend(std::iter::repeat(b'a').take(fill));
+                for t in &tail {
+                    c.push(b' ');
+                    c.extend_from_slice(t.as_bytes());
+                }
+                for follow in ["\r\n", "\r\nG", "\rX", "\r\nGET / HTTP/1.1\r\n"] {
+                    let mut x = c.clone();
+                    x.extend_from_slice(follow.as_bytes());
+                    cases.push(x);
+                }
+            }
+        }
     }
     // CR-free inputs of 0..=110 and 600 bytes, of three kinds
     for n in (0usize..=110).chain([600]) {
@@ -284,7 +323,7 @@ pub fn len_universe() -> ListUniverse {
 
 /// Multi-byte scalars placed around the first CR and inside fields (for the &str entry points).
 pub fn utf_universe(suffix_depth: usize) -> ListUniverse {
-    let scalars: [&str; 4] = ["é", "€", "😀", "\u{7f}"];
+    let scalars: [&str; 9] = ["é", "€", "😀", "\u{7f}", "\u{feff}", "\u{a0}", "\u{200b}", "\u{2028}", "\u{85}"];
     let mut cases: Vec<Vec<u8>> = Vec::new();
     let mut stems = all_stems();
     stems.truncate(stems.len()); // all
@@ -301,6 +340,8 @@ pub fn utf_universe(suffix_depth: usize) -> ListUniverse {
             forms.push([stem.as_slice(), b"\r", sb, b"\n"].concat());
             forms.push([stem.as_slice(), sb, b"\r"].concat());
             forms.push([stem.as_slice(), b"\r\n", sb].concat());
+            forms.push([sb, stem.as_slice()].concat());
+            forms.push([sb, stem.as_slice(), b"\r\n"].concat());
             for f in forms {
                 if suffix_depth == 0 {
                     cases.push(f);
@@ -341,6 +382,52 @@ pub fn utf_universe(suffix_depth: usize) -> ListUniverse {
     ListUniverse {
         name: "U1-utf".into(),
         what: "2-, 3-, 4-byte scalars before / after / two after the first CR after every stem, inside every field, and across the 107-byte limit".into(),
+        cases,
+    }
+}
+
+/// Every byte value 0..=255 substituted for, and inserted before, every position of every baseline line
+/// (and appended).  Reaches byte values outside the 16-symbol alphabet at every position.
+pub fn anybyte_universe() -> ListUniverse {
+    let mut cases: Vec<Vec<u8>> = Vec::new();
+    let mut lines = baselines();
+    lines.push(b("PROXY UNKNOWN \r\n"));
+    lines.push(b("PROXY UNKNOWN a b\r\nX"));
+    for l in &lines {
+        for i in 0..=l.len() {
+            for v in 0..=255u8 {
+                if i < l.len() {
+                    let mut c = l.clone();
+                    c[i] = v;
+                    cases.push(c);
+                }
+                let mut c = l[..i].to_vec();
+                c.push(v);
+                c.extend_from_slice(&l[i..]);
+                cases.push(c);
+            }
+        }
+    }
+    // two adjacent arbitrary bytes right before the CR and right after it (a few byte values)
+    let few: Vec<u8> = vec![0x00, 0x09, 0x0a, 0x0b, 0x0c, 0x0d, 0x0e, 0x1f, 0x20, 0x7f, 0x80, 0xc2, 0xff];
+    for l in &lines {
+        if let Some(cr) = l.iter().position(|&x| x == b'\r') {
+            for &a in &few {
+                for &bb in &few {
+                    let mut c = l[..cr].to_vec();
+                    c.push(a);
+                    c.push(bb);
+                    c.extend_from_slice(&l[cr..]);
+                    cases.push(c);
+                }
+            }
+        }
+    }
+    cases.sort();
+    cases.dedup();
+    ListUniverse {
+        name: "U1-anybyte".into(),
+        what: "every byte value 0..=255 substituted at and inserted before every position of 8 baseline lines; pairs of control / boundary bytes right before the CR".into(),
         cases,
     }
 }
